@@ -1,7 +1,8 @@
 """Engine `thriftwire` (C14): framed Thrift calls and replies agree with the Thrift library's codec.
 
-Specs: TBinaryWire (reference codec, classification, stream -> frame function), ThriftWireAbs (oracle,
-named clauses), ThriftWireTrace (batched validation), ReadAll (code-shaped model of the chunked
+Specs: TBinaryWire (reference codec, classification, stream -> frame function), TBinaryWireCheck (its bounded
+self-consistency and the classification case table), ThriftWireAbs (oracle, named clauses), ThriftWireTrace
+(batched validation), ReadAll (code-shaped model of the chunked
 header-then-body reads, model-checked; every chunking TLC enumerates is replayed on the real code).
 
 Code under test (always the real classes from /repo): scales.thrift.serializer.MessageSerializer via
@@ -30,7 +31,7 @@ PROPS = ['C14']
 LEVEL = {'C14': 'model_checking'}
 TRACE_MODULE = 'ThriftWireTrace'
 TRACE_CFG = 'ThriftWireTrace.cfg'
-TRACE_CHUNK = 60
+TRACE_CHUNK = 250        # set per tier in cases()
 ASSUMPTIONS = [
   'the peer is the Thrift library\'s generated Processor over the pure-Python TBinaryProtocol (thrift 0.24); '
   'gen_py_x interfaces are hand-written in the style of the compiler output (no thrift compiler offline)',
@@ -55,13 +56,18 @@ ENUM_CFG = {'quick': 'ReadAll_enum_q.cfg', 'thorough': 'ReadAll_enum_t.cfg'}
 
 
 def models(prop, tier):
+  codec = dict(module='TBinaryWireCheck', cfg='TBinaryWireCheck.cfg', workers=4,
+               what='reference codec laws (ints, UTF-8, Skip/EncVal, ParseMsg/MsgBegin inverse) and the reply '
+                    'classification as an exhaustive case table over (method kind, message type, fields present)')
   if tier == 'quick':
     return [dict(module='ReadAll', cfg='ReadAll_q.cfg', coverage=True, workers=4,
-                 what='header-then-body reads, streams <= 8 bytes, 2 transactions, both readAll variants, all chunkings')]
+                 what='header-then-body reads, streams <= 8 bytes, 2 transactions, both readAll variants, all chunkings'),
+            codec]
   return [dict(module='ReadAll', cfg='ReadAll_q.cfg', coverage=True, workers=4,
                what='streams <= 8 bytes, 2 transactions, all chunkings'),
           dict(module='ReadAll', cfg='ReadAll_t.cfg', coverage=True, workers=8,
-               what='streams <= 12 bytes, 2 transactions, all chunkings')]
+               what='streams <= 12 bytes, 2 transactions, all chunkings'),
+          codec]
 
 
 # =================================================================== typed values
@@ -267,9 +273,9 @@ def _gen_chunks(rng, n):
   out = []
   left = n
   while left > 0:
-    k = rng.choice([1, 1, 2, 3, 5, 8, 13, 64])
+    k = rng.choice([0, 1, 1, 2, 3, 5, 8, 13, 64])   # 0 = full read
     out.append(k)
-    left -= k
+    left -= k or 4
   return out
 
 
@@ -314,6 +320,7 @@ def _gen_call(rng, iface):
     srv = {'do': 'extra', 'v': srv['v']}        # normal result + an unknown extra field (must be skipped)
   call = {'iface': iface, 'm': m, 'pos': pos, 'kw': kw, 'srv': srv,
           'form': rng.choice(['sync', 'async']), 'stack': 'min' if rng.random() < 0.8 else 'full',
+          'proto': 'accel' if rng.random() < 0.7 else 'pure',
           'chunks': None, 'cut': -1}
   call['chunkseed'] = rng.randint(0, 2 ** 30)
   if rng.random() < 0.12:
@@ -322,6 +329,8 @@ def _gen_call(rng, iface):
 
 
 def cases(prop, tier, seed):
+  global TRACE_CHUNK
+  TRACE_CHUNK = 250 if tier == 'quick' else 1500
   rng = random.Random(7919 * int(seed) + 14)
   nb = 110 if tier == 'quick' else 2000
   per = 10
@@ -398,7 +407,8 @@ class FakeSocket(object):
       return b''
     k = min(n, avail)
     if self.script is not None and self.sidx < len(self.script):
-      k = max(1, min(k, self.script[self.sidx]))
+      if self.script[self.sidx] > 0:        # 0 = a full read: everything that was asked for
+        k = min(k, self.script[self.sidx])
       self.sidx += 1
     out = bytes(self.rx[self.rpos:self.rpos + k])
     self.rpos += k
@@ -413,6 +423,19 @@ class FakeSocket(object):
     data = self._next(n)
     buf[:len(data)] = data
     return len(data)
+
+
+def _limit_memory(extra=384 << 20):
+  """A corrupted length word can make the code under test allocate gigabytes; bound the child's
+  address space so that such a request fails with MemoryError (an ordinary error outcome) instead of
+  the kernel killing children."""
+  try:
+    import resource
+    with open('/proc/self/statm') as f:
+      cur = int(f.read().split()[0]) * resource.getpagesize()
+    resource.setrlimit(resource.RLIMIT_AS, (cur + extra, cur + extra))
+  except Exception:
+    pass
 
 
 def _install_net():
@@ -471,7 +494,6 @@ def _serve(iface_mod, chain, srv, payload, rec):
   """Run the Thrift library's generated Processor on one request payload. Returns reply payload or None."""
   from thrift.protocol.TBinaryProtocol import TBinaryProtocol
   from thrift.transport.TTransport import TMemoryBuffer
-  import logging
   proc = iface_mod.Processor(_Handler(chain, srv, rec))
 
   def begin(name, mtype, seqid):
@@ -508,7 +530,7 @@ def _module_chain(iface_mod):
   return [sys.modules[c.__module__] for c in inspect.getmro(iface_mod.Iface) if c is not object]
 
 
-def _build_client(iface_mod, stack):
+def _build_client(iface_mod, stack, proto='accel'):
   from scales.constants import SinkProperties
   from scales.core import ClientProxyBuilder
   from scales.dispatch import MessageDispatcher
@@ -519,7 +541,12 @@ def _build_client(iface_mod, stack):
     from scales.thrift import Thrift
     b = Thrift.NewBuilder(iface_mod.Iface).SetUri('tcp://10.0.0.1:9090').SetTimeout(10).SetOpenTimeout(0)
     return b.Build()
-  ser = ThriftSerializerSink.Builder()
+  if proto == 'pure':
+    # the pure-Python binary protocol (generated read()/write() code paths instead of fastbinary)
+    from thrift.protocol.TBinaryProtocol import TBinaryProtocolFactory
+    ser = ThriftSerializerSink.Builder(protocol_factory=TBinaryProtocolFactory())
+  else:
+    ser = ThriftSerializerSink.Builder()     # default: TBinaryProtocolAcceleratedFactory
   tr = SocketTransportSink.Builder()
   ser.next_provider = tr
   ts = TimeoutSinkProvider()
@@ -578,7 +605,7 @@ def _one_call(loop, net, call, chunks, cut):
 
   net.on_frame = on_frame
   del net.sockets[:]
-  proxy = _build_client(iface_mod, call['stack'])
+  proxy = _build_client(iface_mod, call['stack'], call.get('proto', 'accel'))
   loop.settle()
   args = [from_tv(v) for v in call['pos']]
   kwargs = dict((x['k'], from_tv(x['v'])) for x in call['kw'])
@@ -630,6 +657,9 @@ def _one_call(loop, net, call, chunks, cut):
 def _run_rpc(script):
   loop = common.boot()
   net = _install_net()
+  import scales.thrift.sink  # noqa: load everything before the address space is bounded
+  _ifaces()
+  _limit_memory()
   ev = []
   meta = []
   for call in script['calls']:
@@ -648,7 +678,8 @@ def _run_rpc(script):
       ev.append({'e': 'Reply', 'm': call['m'], 'stream': list(run['stream']),
                  'same_stream': 1 if run['stream'] == ref['stream'] and run['sent'] == ref['sent'] else 0,
                  'chunks': [k for (_r, k) in run['reads']], 'out': run['out'], 'ref': ref['out']})
-    meta.append({'iface': call['iface'], 'srv': call['srv']['do'], 'form': call['form'], 'stack': call['stack']})
+    meta.append({'iface': call['iface'], 'srv': call['srv']['do'], 'form': call['form'], 'stack': call['stack'],
+                 'proto': call.get('proto', 'accel')})
   return {'cfg': {'kind': 'rpc'}, 'ev': ev, 'meta': meta, 'errors': [list(e[1:3]) for e in loop.errors][:3]}
 
 
@@ -745,6 +776,8 @@ def _chunk_one(loop, c):
 def _run_chunks(script):
   loop = common.boot()
   _install_net()
+  import scales.thrift.sink  # noqa
+  _limit_memory()
   out = []
   for c in script['items']:
     ev, steps, drift = _chunk_one(loop, c)
@@ -758,6 +791,8 @@ def run_case(script):
   if script['kind'] == 'chunk':
     loop = common.boot()
     _install_net()
+    import scales.thrift.sink  # noqa
+    _limit_memory()
     ev, _steps, _drift = _chunk_one(loop, script)
     return {'cfg': {'kind': 'chunk'}, 'ev': ev}
   raise ValueError(script['kind'])
@@ -799,7 +834,10 @@ def replay_behaviours(prop, tier, seed):
       continue
     seen.add(key)
     items.append({'kind': 'chunk', 'variant': variant, 'stream': stream, 'ntxn': 2,
-                  'chunks': [c[1] for c in chunks if c[1] > 0], 'spec_reads': chunks, 'spec_outs': outs})
+                  # a read that got all it asked for is replayed as "deliver everything requested" (0), so
+                  # code that asks for more than the model does is given more, as a real socket would
+                  'chunks': [(c[1] if c[1] < c[0] else 0) for c in chunks if c[1] > 0],
+                  'spec_reads': chunks, 'spec_outs': outs})
   per = 150
   batches = [{'kind': 'chunks', 'items': items[i:i + per]} for i in range(0, len(items), per)]
   res = common.run_forked(_run_chunks, batches, timeout_s=600)
@@ -812,8 +850,9 @@ def replay_behaviours(prop, tier, seed):
     steps += o['steps']
     if o['drift']:
       drift.append(o['drift'])
-    script = dict(it)
-    traces.append({'cfg': {'kind': 'chunk'}, 'ev': o['ev'], 'script': script})
+    script = {'kind': 'chunk', 'variant': it['variant'], 'stream': it['stream'], 'ntxn': it['ntxn'],
+              'chunks': it['chunks']}
+    traces.append({'cfg': {'kind': 'chunk'}, 'ev': o['ev'], 'script': script, 'nreads': len(it['spec_reads'])})
   return {'summary': {'behaviours_replayed': len(items), 'steps_compared': steps, 'drift': len(drift),
                       'tlc_enum_distinct_states': r.distinct, 'tlc_enum_wall_s': round(r.wall_s, 1)},
           'traces': traces, 'drift': drift}
@@ -829,8 +868,8 @@ def nontrivial(prop, t):
       return common.canon(t['ev'])
     if e['e'] == 'Read':
       s = t.get('script') or {}
-      if len(s.get('spec_reads', s.get('chunks', []))) > 1:
-        return common.canon([e['variant'], e['stream'], s.get('spec_reads', s.get('chunks'))])
+      if t.get('nreads', len(s.get('chunks', []))) > 1:
+        return common.canon([e['variant'], e['stream'], s.get('chunks')])
   return None
 
 
@@ -852,6 +891,6 @@ def extra_coverage(prop, tier, traces):
   kinds = {}
   for t in traces:
     for m in t.get('meta', []) or []:
-      k = '%s/%s/%s/%s' % (m['iface'], m['srv'], m['form'], m['stack'])
+      k = '%s/%s/%s/%s/%s' % (m['iface'], m['srv'], m['form'], m['stack'], m.get('proto'))
       kinds[k] = kinds.get(k, 0) + 1
   return {'calls': calls, 'replies': replies, 'chunkings_replayed': reads, 'call_classes': len(kinds)}
